@@ -1418,6 +1418,10 @@ class _Run(object):
                     return
                 for t in tail:
                     if t.block_height and t.txid in U.by_txid:
+                        if U.by_txid[t.txid] not in self.m_tx:
+                            if not hasattr(self, 'm_tx_addrpos'):
+                                self.m_tx_addrpos = set()
+                            self.m_tx_addrpos.add(U.by_txid[t.txid])      # first stored by an address-level answer
                         self.m_tx.add(U.by_txid[t.txid])
                 if all(n in self.m_tx for n in U.history(a['addr'], confirmed_only=True)):
                     # the whole confirmed history is legitimately cached: the balance derived from it is the chain's
@@ -1465,8 +1469,13 @@ class _Run(object):
                           'the stored block is %r' % (what, got, want_txs),
                           # (the recorded order finding as it shows on a PAGE: transactions of this block, no
                           # duplicates, as many as the page holds - a slice of the block in another order)
-                          kf=F_ORDER if (None not in got and len(set(got)) == len(got) == len(want_txs) and
-                                         set(got) <= set(U.block_txs)) else None)
+                          # ... or, when a transaction of this block was first stored by an address-level answer
+                          # (its position column is its place in THAT answer and collides with the block's own
+                          # numbering), any duplicate-free selection of this block's transactions
+                          kf=F_ORDER if (None not in got and len(set(got)) == len(got) and
+                                         set(got) <= set(U.block_txs) and
+                                         (len(got) == len(want_txs) or
+                                          set(U.block_txs) & getattr(self, 'm_tx_addrpos', set()))) else None)
                 return
             if a.get('parse'):
                 for t, n in zip(txs, got):
